@@ -398,6 +398,13 @@ impl Module {
     /// structural feature labels, for the evidence histogram and the non-triviality rules
     pub fn labels(&self) -> Vec<String> {
         let mut out = std::collections::BTreeSet::new();
+        for inst in &self.insts {
+            if let TyExpr::User(_, args) = inst {
+                if args.iter().any(|a| matches!(a, TyExpr::User(_, inner) if !inner.is_empty())) {
+                    out.insert("instantiated_generic_as_type_argument".to_string());
+                }
+            }
+        }
         for (i, td) in self.types.iter().enumerate() {
             for (j, o) in self.types.iter().enumerate() {
                 if i == j {
@@ -412,6 +419,16 @@ impl Module {
                 let (pa, pb) = (td.expected_path(), o.expected_path());
                 if pa != pb && pa.rsplit('/').next() == pb.rsplit('/').next() {
                     out.insert("same_file_name_in_two_directories".to_string());
+                }
+            }
+            {
+                // a reference to a later definition closes a cycle (definitions only refer backwards otherwise)
+                let mut direct = std::collections::BTreeSet::new();
+                for f in td.all_fields() {
+                    collect_users(&f.ty, &mut direct);
+                }
+                if direct.iter().any(|j| *j > i) {
+                    out.insert("reference_cycle".to_string());
                 }
             }
             if !td.expected_path().ends_with(".ts") {
